@@ -70,6 +70,7 @@ func standardAtoms() *Atoms {
 	a.addAddr(131, pad20("withdraw-one"))
 	a.addAddr(132, pad20("withdraw-two"))
 	a.addAddr(141, pad20("stranger"))
+	a.addAddr(modProvAtom, modProvBytes) // provider address of the module registered for modSvc (world.go)
 	// module accounts the bank keeper blocks as receivers (model: is_blocked, atoms 9001..9004)
 	a.addAddr(9001, authtypes.NewModuleAddress(types.RequestAccName))
 	a.addAddr(9002, authtypes.NewModuleAddress(types.DepositAccName))
@@ -387,6 +388,14 @@ func (g *Gen) next0() *Op {
 			return &Op{Kind: "export"}
 		}
 	}
+	// -k3 > 0 only (known finding K3 inside the correspondence, DESIGN 12.10): the module service gets its
+	// definition early, so that calls aimed at it reach the module-service branch of the handler
+	if g.k3 > 0 {
+		if _, ok := s.Defs[modSvc]; !ok && g.chance(0.2) {
+			g.defCtr++
+			return &Op{Kind: "define", Svc: 5, Content: g.defCtr, Owner: pick(rng, ownerAtoms)}
+		}
+	}
 	// governance parameter change: about one op in twenty of a history that has them (one in sixty overall)
 	if g.paramHist && g.prng.Intn(20) == 0 {
 		return g.setParams()
@@ -463,6 +472,10 @@ func (g *Gen) next0() *Op {
 					o.Svc = a.atomOfSvc(bound[rng.Intn(len(bound))])
 				}
 			}
+		}
+		if g.k3 > 0 && g.chance(0.05) {
+			// the module's provider address as an ordinary provider of another service: it gets an owner
+			o.Prov = modProvAtom
 		}
 		if ow, ok := s.Owners[string(a.addr(o.Prov))]; ok && g.chance(0.85) {
 			o.Owner = a.atomOfAddr([]byte(ow))
